@@ -9,7 +9,8 @@ LEVEL = "exploration"
 TECHNIQUE = "static bytecode verifier by control-flow reachability (R8) on every accepted program + inline operand-in-frame monitor on hooked VM state before every executed instruction, under ASan+UBSan"
 FLAVOURS = [("asan", "generated")]
 RULE = ("generated programs with unusual declarations boosted (repeated parameter names, OUT equal to a parameter, no parameters, no body "
-        "variables, redefinition, uncalled programs, nested calls as arguments), library-macro programs, and token-mutated programs that the "
+        "variables, redefinition, uncalled programs, nested calls as arguments), library-macro programs, sources with one dimension past 2^8 (registers, "
+        "definitions, parameters, labels, nesting, call depth, identifier length, files, macro slots/arguments/uses), and token-mutated programs that the "
         "compiler still accepts; every accepted program is (1) verified statically on all paths: root PREPARE/HALT, successors in range, routines "
         "disjoint, consistent (count, stack map) per entry, every register operand < frame size, PREPARE ARG* EXEC shape, ARG count = source arity, "
         "no fall-off, RET unreachable from the root; (2) executed with every operand checked against the current activation's (base,size) "
@@ -20,7 +21,10 @@ ASSUMPTIONS = ["R8 (vlib/ref/bytecode.py) states the structural rules of the pro
 
 def plan(tier, seed):
     n = 4000 if tier == "quick" else 80000
-    return [{"seed": seed, "chunk": i, "n": 80} for i in range(n // 80)]
+    specs = [{"seed": seed, "chunk": i, "n": 80} for i in range(n // 80)]
+    # sources with one dimension past 2^8 (registers, definitions, parameters, labels, nesting, call depth, files, macro slots ...)
+    specs += [{"seed": seed, "chunk": 500000 + i, "n": 0, "scale": i} for i in range(16 if tier == "quick" else 64)]
+    return specs
 
 
 def unusual_program(r):
@@ -42,6 +46,9 @@ def work(spec):
     part = harness.new_partial()
     r = common.rng(spec["seed"], "C03", spec["chunk"])
     srcs = []
+    if "scale" in spec:
+        all_ = programs.scale_sources(r, small=spec["scale"] < 16)
+        srcs.append(all_[spec["scale"] % len(all_)])
     for k in range(spec["n"]):
         m = k % 8
         if m < 5:
